@@ -135,6 +135,30 @@ fn lexical_wellformed(files: &BTreeMap<String, String>) -> Result<String, String
             i += 1;
         }
         if let Some((o, l)) = stack.pop() { return Err(format!("{}:{} `{}` never closed", f, l, o)); }
+        // statement shapes: a line that begins outside every bracket begins a declaration, an import, a comment or closes one
+        {
+            let mut depth = 0i32; let mut in_block_comment = false; let mut q: Option<char> = None;
+            for (ln, l) in text.lines().enumerate() {
+                let at_top = depth == 0 && !in_block_comment && q.is_none();
+                let t = l.trim_start();
+                if at_top && !t.is_empty() {
+                    let ok = ["export ", "import ", "const ", "let ", "function ", "async function ", "type ", "interface ", "declare ", "//", "/*", "}", ")", "]", "};", ");"].iter().any(|p| t.starts_with(p));
+                    if !ok { return Err(format!("{}:{} text outside every declaration: `{}`", f, ln + 1, t.chars().take(100).collect::<String>())); }
+                }
+                let cs: Vec<char> = l.chars().collect();
+                let mut i = 0;
+                while i < cs.len() {
+                    let c = cs[i];
+                    if in_block_comment { if c == '*' && cs.get(i + 1) == Some(&'/') { in_block_comment = false; i += 1; } i += 1; continue; }
+                    if let Some(x) = q { if c == '\\' { i += 2; continue; } if c == x { q = None; } i += 1; continue; }
+                    if c == '/' && cs.get(i + 1) == Some(&'/') { break; }
+                    if c == '/' && cs.get(i + 1) == Some(&'*') { in_block_comment = true; i += 2; continue; }
+                    match c { '"' | '\'' | '`' => q = Some(c), '(' | '[' | '{' => depth += 1, ')' | ']' | '}' => depth -= 1, _ => {} }
+                    i += 1;
+                }
+                if let Some(x) = q { if x != '`' { q = None; } }
+            }
+        }
         // type-argument lists: on lines that carry a signature type, `<` and `>` balance (arrows `=>` aside, strings removed)
         for (ln, l) in text.lines().enumerate() {
             let t = l.trim_start();
@@ -411,6 +435,7 @@ fn main() {
         src.push_str("#[derive(Serialize, Deserialize)]\npub struct Request { pub id: u32 }\n#[derive(Serialize, Deserialize)]\npub struct Channel2 { pub id: u32 }\npub mod dto { use serde::{Serialize, Deserialize}; #[derive(Serialize, Deserialize)] pub struct Window { pub title: String } }\n");
         src.push_str("#[tauri::command]\npub fn user_types_named_like_injected(request: Request, channel: Channel2, pane: crate::dto::Window, other: u32) -> u32 { 0 }\n");
         src.push_str("#[tauri::command(rename_all = \"snake_case\")]\npub fn macro_snake(user_name: String, retry_count: u32, on_event: Channel<u32>, app: tauri::AppHandle) -> u32 { 0 }\n#[tauri::command(async, rename_all = \"camelCase\")]\npub fn macro_camel(user_name: String) -> u32 { 0 }\n#[command(rename_all = \"snake_case\")]\npub fn bare_macro_snake(user_name: String) -> u32 { 0 }\n#[tauri::command(async)]\npub fn macro_plain(user_name: String) -> u32 { 0 }\n");
+        src.push_str("#[tauri::command(root = \"crate\", rename_all = \"snake_case\")]\npub fn macro_root_first(file_name: String, on_event: Channel<u32>) -> u32 { 0 }\n#[tauri::command(rename_all = \"snake_case\", root = \"crate\")]\npub fn macro_root_last(file_name: String) -> u32 { 0 }\n");
         src.push_str("#[tauri::command]\npub fn opt_paths(plain: Option<u32>, std_path: std::option::Option<u32>, core_path: core::option::Option<String>, abs_path: ::std::option::Option<bool>, required: u32) -> u32 { 0 }\n");
         src.push_str("#[tauri::command]\npub fn r#move(first_arg: String, r#type: u32, on_event: Channel<u32>) -> u32 { 0 }\n");
         let dir = root.join("inject/src");
@@ -506,6 +531,7 @@ fn main() {
                 Ok(format!("{:?}", keys))
             });
             for (obj, attr, want) in [("MacroSnakeParams", "#[tauri::command(rename_all = \"snake_case\")]", vec!["on_event", "retry_count", "user_name"]), ("MacroCamelParams", "#[tauri::command(async, rename_all = \"camelCase\")]", vec!["userName"]),
+                                      ("MacroRootFirstParams", "#[tauri::command(root = \"crate\", rename_all = \"snake_case\")]", vec!["file_name", "on_event"]), ("MacroRootLastParams", "#[tauri::command(rename_all = \"snake_case\", root = \"crate\")]", vec!["file_name"]),
                                       ("BareMacroSnakeParams", "#[command(rename_all = \"snake_case\")]", vec!["user_name"]), ("MacroPlainParams", "#[tauri::command(async)]", vec!["userName"])] {
                 rep.case("invoke_keys_follow_the_command_macro_case", &format!("{} {} mode={}", attr, obj, mode), &|| {
                     let files = generate(&dir, &root.join(format!("inject/out_{}", mode)), mode)?;
@@ -568,6 +594,10 @@ fn main() {
             ("with_de_rename", "#[serde(deserialize_with = \"de_rename\", default)]", Some("with_de_rename")),
             ("rename_digit", "#[serde(rename = \"2fa\")]", Some("2fa")),
             ("rename_space", "#[serde(rename = \"display name\")]", Some("display name")),
+            ("type_", "", Some("type_")),
+            ("match_", "", Some("match_")),
+            ("ref__", "", Some("ref__")),
+            ("empty_rename", "#[serde(rename = \"\")]", Some("")),
         ];
         let conventions = ["", "lowercase", "UPPERCASE", "PascalCase", "camelCase", "snake_case", "SCREAMING_SNAKE_CASE", "kebab-case", "SCREAMING-KEBAB-CASE"];
         let derives = ["#[derive(Serialize, Deserialize)]", "#[derive(Debug, Clone, serde::Serialize, serde::Deserialize)]", "#[derive(serde::Serialize)]\n#[derive(Debug)]", "#[derive(Deserialize, Clone)]"];
@@ -739,7 +769,8 @@ fn main() {
             ("c:user:login", "app.emit(\"c:user:login\", 1u32).ok();"), ("CUserLogin", "app.emit(\"CUserLogin\", 1u32).ok();"), ("c-user-login2", "app.emit(\"c-user-login2\", 1u32).ok();"),
             // functions carrying cfg / other attributes and qualifiers
             ("n-closure", ""), ("n-async-block-in-call", ""), ("n-unsafe-block", ""), ("n-if-let", ""), ("n-else-if", ""), ("n-while-let", ""), ("n-match-guard", ""), ("n-block-expr", ""), ("n-paren", ""), ("n-async-await", ""),
-            ("z-sync-status", ""), ("z-tags", ""), ("t-typed-late-init", ""), ("t-typed-late-init-2", ""),
+            ("u-vec-infer", ""), ("u-map-array", ""), ("u-tuple-array", ""), ("u-vec-array", ""),
+            ("z-sync-status", ""), ("z-tags", ""), ("t-typed-late-init", ""), ("t-typed-late-init-2", ""), ("s-path-struct", ""), ("s-path-struct-2", ""), ("s-bare-struct", ""),
             ("g-letter-in-name", ""), ("g-letter-in-name-2", ""), ("v-typed-first", ""), ("v-untyped-after-typed", ""),
             ("t-typed-vec-new", ""), ("t-typed-default", ""), ("t-typed-method", ""), ("t-typed-none", ""), ("t-typed-from", ""),
             ("f-cfg-not-test", ""), ("f-cfg-feature", ""), ("f-cfg-any", ""), ("f-attrs", ""), ("f-async-unsafe", ""), ("f-generic-payload", ""), ("f-private", ""),
@@ -784,6 +815,8 @@ fn main() {
             pub fn sync_b(app: &tauri::AppHandle, finished: SyncFinished) { app.emit(\"z-sync-status\", finished).ok(); }\n\
             pub fn tags_a(app: &tauri::AppHandle, tags: Vec<TagOnlyInSets>) { app.emit(\"z-tags\", tags).ok(); }\n\
             pub fn tags_b(app: &tauri::AppHandle, tags: std::collections::BTreeSet<TagOnlyInSets>) { app.emit(\"z-tags\", tags).ok(); }\n\
+            pub fn partly_unprintable(app: &tauri::AppHandle, src: Vec<Player>) { let items: Vec<_> = src.into_iter().collect(); app.emit(\"u-vec-infer\", items).ok(); let m: HashMap<String, [u32; 3]> = HashMap::new(); app.emit(\"u-map-array\", m).ok(); let t: (Player, [u8; 4]) = todo!(); app.emit(\"u-tuple-array\", t).ok(); let v: Vec<[f64; 3]> = vec![]; app.emit(\"u-vec-array\", v).ok(); }\n\
+            pub fn struct_exprs(app: &tauri::AppHandle) { app.emit(\"s-path-struct\", crate::Player { id: 1 }).ok(); app.emit(\"s-path-struct-2\", self::Player { id: 2 }).ok(); app.emit(\"s-bare-struct\", Player { id: 3 }).ok(); }\n\
             pub fn late_init(app: &tauri::AppHandle, flag: bool) { let status: Player; if flag { status = Player { id: 1 }; } else { status = Player { id: 2 }; } app.emit(\"t-typed-late-init\", status.clone()).ok(); let count: u32; count = 3; app.emit(\"t-typed-late-init-2\", count).ok(); }\n\
             pub fn typed_lets(app: &tauri::AppHandle, state: Holder) {\n\
                 let queue: Vec<Player> = Vec::new(); app.emit(\"t-typed-vec-new\", &queue).ok();\n\
@@ -827,6 +860,8 @@ fn main() {
                     ("n-if-let", "unknown"), ("n-while-let", "unknown"), ("n-match-guard", "unknown"), ("n-closure", "number"),
                     ("r-mixed", "unknown"), ("r-repeat", "number"),
                     ("g-letter-in-name", "types.ScanReport"), ("g-letter-in-name-2", "types.Ticket"), ("v-typed-first", "types.Player"), ("v-untyped-after-typed", "unknown"),
+                    ("u-vec-infer", "unknown"), ("u-map-array", "unknown || Record<string, number[]>"), ("u-tuple-array", "unknown || [types.Player, number[]]"), ("u-vec-array", "unknown || number[][]"),
+                    ("s-path-struct", "types.Player"), ("s-path-struct-2", "types.Player"), ("s-bare-struct", "types.Player"),
                     ("t-typed-late-init", "types.Player"), ("t-typed-late-init-2", "number"), ("z-sync-status", "unknown"), ("z-tags", "types.TagOnlyInSets[]")];
                 for (name, ty) in want {
                     let needle = format!(">('{}',", name);
@@ -834,7 +869,7 @@ fn main() {
                     let line_start = ev[..p].rfind('\n').map_or(0, |i| i + 1);
                     let line = &ev[line_start..p];
                     let got = line.trim().strip_prefix("return listen<").ok_or(format!("unexpected listen line `{}`", line))?;
-                    if got != ty { return Err(format!("listener of '{}' takes `{}`, the payload's declared type translates to `{}`", name, got, ty)); }
+                    if !ty.split(" || ").any(|alt| alt == got) { return Err(format!("listener of '{}' takes `{}`, the payload's declared type translates to `{}`", name, got, ty)); }
                 }
                 Ok("ok".into())
             });
@@ -872,18 +907,22 @@ fn main() {
             "pub fn multi_a(app: &tauri::AppHandle, update: Progress) { app.emit(\"multi\", update).ok(); }\n".to_string(),
             "pub fn multi_b(app: &tauri::AppHandle, update: Progress) { app.emit(\"multi\", update).ok(); }\n".to_string(),
             "pub fn multi_c(app: &tauri::AppHandle, total: Summary) { app.emit(\"multi\", total).ok(); }\n".to_string(),
+            "#[derive(Serialize, Deserialize, Clone)]\n#[serde(rename_all = \"snake_case\")]\npub struct Row { #[serde(rename = \"email_address\")] pub mail: String, #[validate(length(min = 1, max = 40))] pub displayName: String, #[validate(range(min = 0, max = 120))] pub age: u32 }\n#[tauri::command(rename_all = \"snake_case\")]\npub fn row(first_row: Row) -> u32 { 0 }\n".to_string(),
         ];
+        // the same item with comments inside the attribute argument lists (comments are not tokens)
+        let commented_row = "#[derive(Serialize, Deserialize, Clone)]\n#[serde(\n    // rename_all = \"camelCase\",\n    rename_all = \"snake_case\"\n)]\npub struct Row { #[serde(/* rename = \"mail\", */ rename = \"email_address\")] pub mail: String, #[validate(length(min = 1, max = 40 /* column width */))] pub displayName: String, #[validate(range(min = 0, // never negative\n max = 120))] pub age: u32 }\n#[tauri::command(/* rename_all = \"camelCase\" */ rename_all = \"snake_case\")]\npub fn row(first_row: Row) -> u32 { 0 }\n".to_string();
         let hdr = format!("{}use tauri::Emitter;\n", HDR);
         let layouts: Vec<(&str, Vec<(String, String)>)> = vec![
             ("one-file", vec![("lib.rs".to_string(), format!("{}{}", hdr, items.join("")))]),
             ("one-file-reversed", vec![("lib.rs".to_string(), format!("{}{}", hdr, items.iter().rev().cloned().collect::<Vec<_>>().join("")))]),
-            ("two-files", vec![("a.rs".to_string(), format!("{}{}{}{}{}{}", hdr, items[0], items[2], items[5], items[6], items[8])), ("b.rs".to_string(), format!("{}{}{}{}{}", hdr, items[1], items[3], items[4], items[7]))]),
-            ("two-files-swapped", vec![("b.rs".to_string(), format!("{}{}{}{}{}{}", hdr, items[8], items[5], items[2], items[0], items[6])), ("a.rs".to_string(), format!("{}{}{}{}{}", hdr, items[7], items[4], items[3], items[1]))]),
+            ("two-files", vec![("a.rs".to_string(), format!("{}{}{}{}{}{}{}", hdr, items[0], items[2], items[5], items[6], items[8], items[9])), ("b.rs".to_string(), format!("{}{}{}{}{}", hdr, items[1], items[3], items[4], items[7]))]),
+            ("two-files-swapped", vec![("b.rs".to_string(), format!("{}{}{}{}{}{}", hdr, items[8], items[5], items[2], items[0], items[6])), ("a.rs".to_string(), format!("{}{}{}{}{}{}", hdr, items[9], items[7], items[4], items[3], items[1]))]),
             ("same-named-helpers-first", vec![("lib.rs".to_string(), format!("{}mod helpers {{\n    pub fn poll() {{}}\n    pub fn start(x: u32) -> u32 {{ x }}\n    pub fn finish() {{}}\n}}\n{}", hdr, items.join("")))]),
             ("two-functions-per-line", vec![("lib.rs".to_string(), format!("{}{}", hdr, items.iter().map(|s| s.trim_end().replace('\n', " ")).collect::<Vec<_>>().chunks(2).map(|c| c.join(" ")).collect::<Vec<_>>().join("\n")))]),
             ("two-functions-per-line-shifted", vec![("lib.rs".to_string(), format!("{}{}\n{}", hdr, items[0].trim_end().replace('\n', " "), items[1..].iter().map(|s| s.trim_end().replace('\n', " ")).collect::<Vec<_>>().chunks(2).map(|c| c.join(" ")).collect::<Vec<_>>().join("\n")))]),
             ("one-file-rotated", vec![("lib.rs".to_string(), format!("{}{}{}", hdr, items[4..].join(""), items[..4].join("")))]),
-            ("one-file-interleaved", vec![("lib.rs".to_string(), format!("{}{}", hdr, [8usize, 0, 6, 1, 2, 7, 3, 4, 5].iter().map(|i| items[*i].clone()).collect::<Vec<_>>().join("")))]),
+            ("one-file-interleaved", vec![("lib.rs".to_string(), format!("{}{}", hdr, [8usize, 0, 6, 9, 1, 2, 7, 3, 4, 5].iter().map(|i| items[*i].clone()).collect::<Vec<_>>().join("")))]),
+            ("comments-inside-attributes", vec![("lib.rs".to_string(), format!("{}{}{}", hdr, items[..9].join(""), commented_row))]),
             ("with-noise", vec![("lib.rs".to_string(), format!("{}// comment\n\n\n{}", hdr, items.iter().map(|s| format!("/* noise */\n{}\n\npub fn unrelated_{}() {{}}\n", s, s.len())).collect::<Vec<_>>().join("")))]),
         ];
         for mode in ["none", "zod"] {
@@ -988,12 +1027,14 @@ fn main() {
             #[tauri::command]\npub fn import(path: String) -> u32 {{ 0 }}\n\
             #[tauri::command]\npub fn _1st(a: u32) -> u32 {{ a }}\n\
             #[tauri::command]\npub fn __(a: u32) -> u32 {{ a }}\n\
-            #[tauri::command]\npub fn _2() -> u32 {{ 0 }}\n", HDR);
+            #[tauri::command]\npub fn _2() -> u32 {{ 0 }}\n\
+            #[derive(Serialize, Deserialize)]\npub struct Account {{ pub id: u32, token: String, pub(crate) retries: u32, pub(super) zone: Option<String> }}\n\
+            #[tauri::command]\npub fn account(a: Account) -> Account {{ a }}\n", HDR);
         let dir = root.join("modes/src");
         write_files(&dir, &[("lib.rs".to_string(), src)]);
         let none = generate(&dir, &root.join("modes/out_none"), "none");
         let zod = generate(&dir, &root.join("modes/out_zod"), "zod");
-        for name in ["Ping", "AllSkipped", "Item", "Holder", "PingParams", "ItemsParams", "QualifiedParams"] {
+        for name in ["Ping", "AllSkipped", "Item", "Holder", "Account", "PingParams", "ItemsParams", "QualifiedParams"] {
             rep.case("both_modes_same_names_and_keys", &format!("type {}", name), &|| {
                 let n = none.as_ref().map_err(|e| e.clone())?.get("types.ts").ok_or("no types.ts (none)")?;
                 let z = zod.as_ref().map_err(|e| e.clone())?.get("types.ts").ok_or("no types.ts (zod)")?;
@@ -1040,6 +1081,10 @@ fn main() {
             ("f_range_neg", "#[validate(range(min = -10, max = -1.5))]", "f64", false, false, vec![".min(-10", ".max(-1.5"], vec![]),
             ("f_range_swapped", "#[validate(range(min = 10, max = 1))]", "i32", false, false, vec![".min(10", ".max(1"], vec![]),
             ("f_len_vec", "#[validate(length(min = 1, max = 3))]", "Vec<String>", false, false, vec![".min(1", ".max(3"], vec![]),
+            ("f_len_matrix", "#[validate(length(min = 1, max = 3))]", "Vec<Vec<String>>", false, false, vec!["z.array(z.array(z.string()))", ".min(1", ".max(3"], vec!["z.string()).min(", "z.string()).max("]),
+            ("f_len_opt_matrix", "#[validate(length(min = 2, message = \"two rows\"))]", "Option<Vec<Vec<u32>>>", false, false, vec![".min(2", "two rows"], vec!["number()).min("]),
+            ("f_len_map_of_vecs", "#[validate(length(min = 1))]", "HashMap<String, Vec<u32>>", false, false, vec![], vec!["number()).min("]),
+            ("f_len_set_of_vecs", "#[validate(length(max = 9))]", "Vec<(String, Vec<String>)>", false, false, vec![".max(9"], vec!["z.string()).max("]),
         ];
         let mut body = String::new();
         for (f, attr, ty, ..) in &fields { if !attr.is_empty() { body.push_str(&format!("    {}\n", attr)); } body.push_str(&format!("    pub {}: {},\n", f, ty)); }
@@ -1210,6 +1255,31 @@ fn main() {
                 Ok("ok".into())
             });
             rep.case("type_references_resolve", &format!("project=mapped mode={}", mode), &|| references_resolve(res.as_ref().map_err(|e| e.clone())?, &["Account", "Stamped", "Span"]));
+            // C18: a type the mapping does not name is rendered exactly as without the mapping
+            rep.case("unmapped_types_are_rendered_as_without_the_mapping", &format!("project=mapped mode={} type Span (the table has the key ext::Span, which names another type)", mode), &|| {
+                let files = res.as_ref().map_err(|e| e.clone())?;
+                let out2 = root.join(format!("mapped/out_plain_{}", mode));
+                let _ = fs::remove_dir_all(&out2);
+                let mut cfg2 = GenerateConfig::default();
+                cfg2.project_path = dir.to_string_lossy().to_string();
+                cfg2.output_path = out2.to_string_lossy().to_string();
+                cfg2.validation_library = mode.to_string();
+                generate_from_config(&cfg2).map_err(|e| format!("generate_from_config (no mapping) returned Err: {}", e))?;
+                let plain = fs::read_to_string(out2.join("types.ts")).map_err(|e| e.to_string())?;
+                let with = files.get("types.ts").ok_or("no types.ts")?;
+                let block = |t: &str| -> Option<String> {
+                    let head = if mode == "zod" { "export const SpanSchema" } else { "export interface Span " };
+                    let st = t.find(head)?;
+                    let en = t[st..].find("\n}").map(|e| st + e + 2)?;
+                    Some(t[st..en].to_string())
+                };
+                let a = block(&plain).ok_or("UNPARSED: without a mapping table types.ts does not declare Span in the expected form")?;
+                match block(with) {
+                    None => Err("with the mapping table types.ts does not declare Span at all; without it, it does".to_string()),
+                    Some(b) if a != b => Err(format!("Span is declared differently with the mapping table: `{}` vs `{}`", b.replace('\n', " "), a.replace('\n', " "))),
+                    _ => Ok("ok".into()),
+                }
+            });
             rep.case("mapped_fields_have_the_target_schema", &format!("project=mapped mode={}", mode), &|| {
                 let files = res.as_ref().map_err(|e| e.clone())?;
                 let t = files.get("types.ts").ok_or("no types.ts")?;
@@ -1444,6 +1514,27 @@ fn main() {
                 for n in ["User", "Comment", "Thread"] { if !exp.contains(n) && !exp.contains(&format!("{}Schema", n)) { return Err(format!("{} is not declared", n)); } }
                 Ok("ok".into())
             });
+        }
+    }
+    // ============================================================ C07 / C02: a non-serde item of the same name earlier in the file does not hide the serde type
+    {
+        let src = format!("{}#[cfg(not(feature = \"telemetry\"))]\npub struct Telemetry;\n#[cfg(feature = \"telemetry\")]\n#[derive(Serialize, Deserialize)]\npub struct Telemetry {{ pub samples: Vec<Sample> }}\n\
+            #[derive(Serialize, Deserialize)]\npub struct Sample {{ pub v: u32 }}\n\
+            pub enum Phase {{ Internal }}\n\
+            pub mod api {{\n    use serde::{{Serialize, Deserialize}};\n    #[derive(Serialize, Deserialize)]\n    pub enum Phase {{ Start, Stop }}\n    #[derive(Serialize, Deserialize)]\n    pub struct Report {{ pub phase: Phase, pub last: Option<super::Sample> }}\n}}\n\
+            #[tauri::command]\npub fn telemetry() -> Telemetry {{ todo!() }}\n#[tauri::command]\npub fn report() -> api::Report {{ todo!() }}\n", HDR);
+        let dir = root.join("shadowed/src");
+        write_files(&dir, &[("lib.rs".to_string(), src)]);
+        let tys = ["Telemetry", "Sample", "Phase", "Report"];
+        for mode in ["none", "zod"] {
+            let files = generate(&dir, &root.join(format!("shadowed/out_{}", mode)), mode);
+            rep.case("mentioned_project_types_are_declared", &format!("project=shadowed mode={}", mode), &|| {
+                let files = files.as_ref().map_err(|e| e.clone())?;
+                let exp = exports_of(files.get("types.ts").ok_or("no types.ts")?);
+                for n in tys { if !exp.contains(n) && !exp.contains(&format!("{}Schema", n)) { return Err(format!("{} is a serde type reachable from a command (a non-serde item of the same name stands earlier in the file) but is not declared", n)); } }
+                types_module_is_closed(files, &tys)
+            });
+            rep.case("type_references_resolve", &format!("project=shadowed mode={}", mode), &|| references_resolve(files.as_ref().map_err(|e| e.clone())?, &tys));
         }
     }
     // ============================================================ C01 / C05 / C07 / C02: arrays and slices are sequences
